@@ -20,7 +20,9 @@ ExpressionFunction / func_args):
 * R-REMAINING a slice is over exactly the remaining variables, in dimension
               order: remaining = [v for v in <dimension list> if v.name not in
               partial_assignment]; the matrix slicer appends exactly one index or
-              one full slice per dimension;
+              one full slice per dimension; no deletion at an enumerate()
+              position inside the loop (index drift when extra variables are
+              ignored);
 * R-IMMUT     relations are values: no method other than __init__ stores into
               self (frozen exception: the transient `_matrix` scratch field of
               NAryMatrixRelation._simple_repr).
@@ -377,6 +379,27 @@ def _remaining(ctx, repo):
         ok = ok and len(r) == 1 and norm(r[0].value) == "(slice_vars, tuple(slices))"
     ctx.check(ok, "R-REMAINING", "matrix slicer: one index (fixed variable) or one full slice (free variable, recorded as remaining) per dimension, in dimension order", sm, loops[0] if loops else sm.node,
               "the index tuple is applied positionally to the array: an entry missing or doubled shifts every later dimension")
+    # index drift: positions taken from enumerate() over one sequence are only valid in a copy of it until the first deletion
+    n_enum = 0
+    for mn in (REL, EXP, VAR):
+        for f in repo.all_functions(repo.module(mn)):
+            for l in walk_no_nested(f.node):
+                if not (isinstance(l, ast.For) and isinstance(l.iter, ast.Call) and call_name(l.iter) == "enumerate" and isinstance(l.target, ast.Tuple) and isinstance(l.target.elts[0], ast.Name)):
+                    continue
+                n_enum += 1
+                i = l.target.elts[0].id
+                for x in ast.walk(l):
+                    hit = None
+                    if isinstance(x, ast.Delete):
+                        hit = next((t for t in x.targets if isinstance(t, ast.Subscript) and isinstance(t.slice, ast.Name) and t.slice.id == i), None)
+                    elif isinstance(x, ast.Call) and isinstance(x.func, ast.Attribute) and x.func.attr in ("pop", "insert") and x.args and isinstance(x.args[0], ast.Name) and x.args[0].id == i:
+                        hit = x
+                    if hit is not None:
+                        ctx.touch(f)
+                        ctx.bad("R-REMAINING", f"{f.qualname}: `{norm(x)}` at the enumerate() position of another sequence", f, x,
+                                f"`{i}` counts positions in `{norm(l.iter.args[0])}`; after the first deletion every later position is shifted by one: with two "
+                                "variables to drop, the wrong entry (a variable that must be sliced) is removed or an IndexError is raised")
+    ctx.check(n_enum >= 2, "R-REMAINING", "enumerate() loops of the relation modules examined for index drift", repo.func(REL, "NAryMatrixRelation._slice_matrix"), sm.node, f"only {n_enum} loops seen")
     sl = repo.func(REL, "NAryMatrixRelation.slice")
     t = norm(sl.node)
     ok = "sliced_vars, sliced_values = zip(*partial_assignment.items())" in t and "NAryMatrixRelation(slice_vars, self._m[s], self.name)" in t and \
@@ -396,6 +419,15 @@ def _remaining(ctx, repo):
     sd = [s for s in ast.walk(cs.node) if isinstance(s, ast.Assign) and norm(s.targets[0]) == "slice_dict"]
     ok = len(sd) == 2 and all(norm(s.value) == f"{{k: v for k, v in {pa}.items() if k in true_names}}" for s in sd)
     ctx.check(ok, "R-REMAINING", "conditional slice: the consequence is sliced on exactly its own assigned variables", cs, sd[0] if sd else cs.node, "")
+    # the consequence is used unsliced only when none of its variables is assigned (a variable may be shared with the condition)
+    bare = [x for x in ast.walk(cs.node) if (isinstance(x, ast.Return) and x.value is not None and norm(x.value) == "self._relation_if_true")
+            or (isinstance(x, ast.Assign) and norm(x.value) == "self._relation_if_true")]
+    for x in bare:
+        fs = {(norm(a), b) for a, b in facts_at(ffs, x)}
+        ctx.check(("slice_dict", False) in fs, "R-REMAINING", "conditional slice: the consequence is kept unsliced only when none of its own variables is assigned", cs, x,
+                  "the dimensions of a ConditionalRelation are the union of condition and consequence: a variable used by both is assigned here but stays a dimension of the result "
+                  "(e.g. condition on x, consequence on x,y, slice {x: 1} gives a relation over x,y)")
+    ctx.check(len(bare) >= 2, "R-REMAINING", "conditional slice: unsliced uses of the consequence found", cs, cs.node, f"{len(bare)} found")
     nr = [c for c in ast.walk(cs.node) if isinstance(c, ast.Call) and call_name(c) == "NeutralRelation"]
     ok = len(nr) == 1
     if ok:
@@ -457,6 +489,9 @@ def check(ctx: Ctx):
 _R = "pydcop/dcop/relations.py"
 _E = "pydcop/utils/expressionfunction.py"
 VARIANTS = [
+    ("conditional_shared_var_unsliced", _R, "                if slice_dict:\n                    return self._relation_if_true.slice(slice_dict)\n                else:\n                    return self._relation_if_true\n",
+     "                if len(partial_assignment) > len(cond_args):\n                    return self._relation_if_true.slice(slice_dict)\n                else:\n                    return self._relation_if_true\n", "break", "R-REMAINING"),
+    ("matrix_extra_vars_index_drift", _R, "        s_vars = []\n        s_values = []\n", "        s_vars = list(sliced_vars)\n        s_values = list(sliced_values)\n        for i, v in enumerate(sliced_vars):\n            if v not in [x.name for x in self._variables] and ignore_extra_vars:\n                del s_vars[i]\n                del s_values[i]\n        sliced_vars, sliced_values = [], []\n", "break", "R-REMAINING"),
     ("slice_drops_f_kwargs", _R, "            return NAryFunctionRelation(\n                slice_f, remaining_vars, name=self.name, f_kwargs=self._f_kwargs\n            )", "            return NAryFunctionRelation(slice_f, remaining_vars, name=self.name)", "break", "R-COPYSTATE"),
     ("conditional_list_wrong_order", _R, "            cond_args = {\n                v.name: v_val\n                for v, v_val in zip(self.dimensions, assignment)\n                if v in self._condition.dimensions\n            }",
      "            names = [v for v in self._condition.dimensions] + [v for v in self._relation_if_true.dimensions if v not in self._condition.dimensions]\n            cond_args = {\n                v.name: v_val\n                for v, v_val in zip(names, assignment)\n                if v in self._condition.dimensions\n            }", "break", "R-POSITIONAL"),
